@@ -446,7 +446,21 @@ func emitBJJDocShapes(out *Out, r *Rng) {
 		if errClass(verr) == "panic" || errClass(verr) == "hang" {
 			why = append(why, verr.Error())
 		}
-		out.Emit(Case{Op: "none", In: J{"didDocument": J{"info": info, "pos": sh.pos, "types": sh.types, "published": sh.published}, "genesis": gen}, Impl: classify(verr), Prop: propOf(why),
+		// the bundle as numbers and oracle bits, with the document's verification methods as they stand: the model picks the state
+		// entry (Gsp.Resolve.stateInfo; Props.C07.bjj_verdict_ignores_other_methods)
+		vmsJ := make([]any, len(sh.types))
+		for i := range sh.types {
+			vmsJ[i] = J{"tp": sh.types[i], "published": sh.published[i]}
+		}
+		auth := *s.is.authClaim
+		ahi, ahv, _ := auth.HiHv()
+		nonce := auth.GetRevocationNonce()
+		in := J{"didDocument": J{"info": info, "pos": sh.pos, "types": sh.types, "published": sh.published},
+			"authClaimOk": true, "sigOk": sigOracle(p.Signature, s.claim, &auth), "authHi": ahi.String(), "authHv": ahv.String(), "authNonce": fmt.Sprint(nonce),
+			"issuer":  J{"didOk": didParses(p.IssuerData.ID), "state": treeStateJ(st.Value, st.ClaimsTreeRoot, st.RevocationTreeRoot, st.RootOfRoots)},
+			"authMtp": proofJSON(p.IssuerData.MTP), "resolved": J{"vms": vmsJ}, "genesis": gen,
+			"statusNonce": J{"ok": fmt.Sprint(nonce)}, "statusAnswer": statusAnswerJ(s.is.RevStatus(nonce), nil)}
+		out.Emit(Case{Op: "verify.bjj", In: in, Impl: classify(verr), Prop: propOf(why),
 			Tags: []string{"did-document", "info:" + info, fmt.Sprintf("genesis:%v", isGen)}, NT: true})
 	}
 }
